@@ -26,7 +26,8 @@ def parseOp (ws : List String) : Option Op :=
   match ws with
   | ["create", n, slot, u] => do pure (.create n (← slot.toNat?) (← boolOf u))
   | ["commit", n, c, r, a, u, d] => do
-    pure (.commit n (← c.toInt?) (← parseHandles (← field "R=" r)) (← parseHandles (← field "A=" a))
+    let cnt ← (if c == "-" then some none else (c.toInt?).map some)
+    pure (.commit n cnt (← parseHandles (← field "R=" r)) (← parseHandles (← field "A=" a))
       (← parseHandles (← field "U=" u)) (← parseKeys (← field "D=" d)))
   | ["remove", n] => some (.remove n)
   | ["break", "drive"] => some (.brk .drive)
